@@ -7,7 +7,6 @@ IdxSort = z3.DeclareSort("Idx")
 # finite string domains are integer coded: idx_space(t) is an index into SPACES
 idx_space = z3.Function("idx_space", IdxSort, z3.IntSort())
 idx_spin = z3.Function("idx_spin", IdxSort, z3.IntSort())
-idx_name = z3.Function("idx_name", IdxSort, z3.StringSort())
 # orbital assigned to an index by the (arbitrary, fixed) assignment sigma:
 # occupied spin orbitals are the negative integers, virtual ones the others.
 orb = z3.Function("orb", IdxSort, z3.IntSort())
@@ -38,7 +37,6 @@ IDX = Schema(
     attrs={
         "space": ("enum", idx_space, SPACES),
         "spin": ("enum", idx_spin, SPINS),
-        "name": ("sym", idx_name, None),
         "space_and_spin": ("py", _space_and_spin),
     },
     classes=("Index", "Dummy", "Symbol", "Expr", "Basic", "AtomicExpr"),
